@@ -662,10 +662,11 @@ func (w *World) driverSolo(rounds int, ext bool) {
 // ---------------------------------------------------------------------------------------------
 // orders: ONE correct validator x; a valid block A is proposed in round 1 by another validator, and the four
 // message groups P (the proposal), D (the block parts), V (+2/3 prevotes for A) and C (+2/3 precommits for A),
-// all of round 1, reach x in every one of the 24 orders. Before the first group x is either still in round 1
-// or has been moved to round 2 by +2/3 nil prevotes of round 2 (the others decide in a round x has left);
+// all of round 1, reach x in every one of the 24 orders. Before the first group x is either still in round 1,
+// or has been moved to round 2 by +2/3 nil prevotes of round 2 (the others decide in a round x has left), or has
+// gone through round 1 the slow way (prevoted another block Z, precommitted nil, timed out into round 2);
 // after each group x's pending timeout either fires or does not. All alternatives cost 0: the product
-// (2 x 24 x 2^4 = 768 executions per turn) is enumerated; afterwards the proposal and the parts are offered
+// (3 x 24 x 2^4 = 1152 executions per turn) is enumerated; afterwards the proposal and the parts are offered
 // again while x lacks them (re-gossip). Whatever the order, x then holds +2/3 precommits and the complete block, so the liveness oracle (C04) demands the commit; the per-node rules of C03 judge
 // the same executions.
 var orderPerms = func() [][]int {
@@ -712,8 +713,8 @@ func (w *World) driverOrders() {
 		panic("orders driver: no block")
 	}
 	data := w.byzProposal(proposer, bi, h, 1, 0, "orders")
-	ch := w.X.Choose(make([]int, 2*len(orderPerms)*16), "orders")
-	late, perm, fires := ch%2, orderPerms[(ch/2)%len(orderPerms)], ch/(2*len(orderPerms))
+	ch := w.X.Choose(make([]int, 3*len(orderPerms)*16), "orders")
+	late, perm, fires := ch%3, orderPerms[(ch/3)%len(orderPerms)], ch/(3*len(orderPerms))
 	names := []string{"P", "D", "V", "C"}
 	lab := fmt.Sprintf("late%d:", late)
 	for k, g := range perm {
@@ -728,6 +729,31 @@ func (w *World) driverOrders() {
 		for _, b := range others {
 			if alive() {
 				w.Deliver(x, w.byzVote(b, idx(b), kproto.PrevoteType, h, 2, types.BlockID{}, "orders"))
+			}
+		}
+	}
+	if late == 2 {
+		// x went through round 1 the slow way and has VOTED there: it was shown another valid block Z and prevoted it,
+		// saw two prevotes for A (+2/3 any, no polka), timed out, precommitted nil, saw two precommits for A (+2/3 any),
+		// timed out and is now in round 2 - the rest of round 1's votes for A (and A itself) arrive only now
+		const stepPrevoteWait, stepPrecommitWait = 5, 7
+		if z := w.byzBlock(proposer, x, "F9"); z != nil {
+			for _, m := range w.byzProposal(proposer, z, h, 1, 0, "orders-other-block") {
+				if alive() {
+					w.Deliver(x, m)
+				}
+			}
+		}
+		for _, t := range []kproto.SignedMsgType{kproto.PrevoteType, kproto.PrecommitType} {
+			for _, b := range others[:2] {
+				if alive() {
+					w.Deliver(x, w.byzVote(b, idx(b), t, h, 1, bi.ID, "orders"))
+				}
+			}
+			if t == kproto.PrevoteType {
+				w.fireIf(x, stepPrevoteWait, 1)
+			} else {
+				w.fireIf(x, stepPrecommitWait, 1)
 			}
 		}
 	}
